@@ -18,6 +18,7 @@ value is carried by StopIteration, re-entry is ValueError.
 import GPy.C05.Proofs
 import GPy.C05.ProofsMore
 import GPy.C05.Frame
+import GPy.C05.ProofsRet
 namespace GPy.C05
 
 variable {σ : Type}
@@ -580,6 +581,116 @@ theorem faithful_yieldFrom {next : σ → Resp × σ} {s : σ} {sc : Script} (h 
   cases endOf sc <;> simp
 
 /-! ## non-vacuity -/
+
+
+/-! ## Part 3 (round 3): the return value of a generator is carried unchanged
+
+`Ret.lean` opens the abstraction `NextErr.stopExc v` of Part 2: Python values are a universe with tuples, lists, dicts,
+exception instances / classes and generator objects, Go errors are `*Type` / `*Exception{Base, Args}` / `ExceptionInfo`,
+and the constructor each site of `py/generator.go` uses is read from the regenerated table `Generated.excSites`. -/
+
+section ReturnValue
+open Ret
+
+/-- The construction sites of exception values in py/generator.go, in the generator instructions of vm/eval.go and in the
+py/exception.go helpers they call, with the constructor each uses (regenerated from the Go source on every run):
+`resume` makes the StopIteration of a returning generator with `exceptionNew(StopIteration, Tuple{res})` (site 3) and the bare
+class for None (sites 2, 4); `Throw` hands an instance on (1, 2), takes a tuple as the args (3), a single value as 1-tuple (4),
+None as no args (5); `Close` throws `GeneratorExit()`; `stopIterationValue` reads `args[0]` and is what `do_YIELD_FROM` and
+`throwYieldFrom` call.  A site that starts to route through another constructor (or a new / removed site) breaks this theorem. -/
+theorem exc_sites_pinned :
+    Generated.excSites.map (fun s => (s.func, s.ord, s.ctor)) = [
+      ("stopIterationValue", 0, .readArg0), ("do_YIELD_FROM", 0, .readValue), ("Vm.throwYieldFrom", 0, .readValue),
+      ("do_END_FINALLY", 0, .newf), ("Vm.raise", 0, .newf), ("Vm.raise", 1, .newf), ("Vm.raise", 2, .makeExc), ("Vm.raise", 3, .makeExc),
+      ("exceptionNew", 0, .literal), ("ExceptionNew", 0, .newArgs), ("ExceptionNewf", 0, .literal),
+      ("MakeException", 0, .newNil), ("MakeException", 1, .newf), ("MakeException", 2, .newTuple1), ("MakeException", 3, .newTuple1),
+      ("MakeException", 4, .newTuple1), ("Exception.M__getattr__", 0, .readArg0),
+      ("Generator.resume", 0, .newf), ("Generator.resume", 1, .newf), ("Generator.resume", 2, .bareType),
+      ("Generator.resume", 3, .newTuple1), ("Generator.resume", 4, .bareType),
+      ("Generator.Throw", 0, .newf), ("Generator.Throw", 1, .passExc), ("Generator.Throw", 2, .passExc), ("Generator.Throw", 3, .newArgs),
+      ("Generator.Throw", 4, .newTuple1), ("Generator.Throw", 5, .newNil), ("Generator.Throw", 6, .newf),
+      ("Generator.Close", 0, .newNil), ("Generator.Close", 1, .newf)] := by decide
+
+/-- the shape of the arguments at the two sites that decide how a value is carried and read back:
+the return value is wrapped in a 1-tuple literal, and the reader takes `args[0]`; `exceptionNew` stores its second argument as `Args` -/
+theorem exc_sites_shapes :
+    (Generated.excSites.filter (fun s => (s.func == "Generator.resume" && s.ord == 3) || s.func == "stopIterationValue" || s.func == "exceptionNew")).map (·.form)
+      = ["return args[0]", "Exception{ Base: metatype, Args: args.Copy(), Dict: make(StringDict), }", "exceptionNew(StopIteration, Tuple{res})"] := by decide
+
+/-- MAIN (goal 1): for EVERY value `v` (None, scalars, tuples of any shape, lists, dicts, exception instances – StopIteration
+instances included –, classes, generator objects) and EVERY depth `n` of nested `r = yield from …; return r` delegation, the value
+the delegating generator receives for the `yield from` expression is `v` itself (same object: `PV` equality includes identity). -/
+theorem return_value_roundtrip (n : Nat) (v : PV) : delivered n v = .ok (specValue v) := by
+  simp [delivered, chainErr_eq, yieldFromFinish_resumeFinish, specValue]
+
+/-- what a caller of `next()`/`send()` catches when the generator (through any depth of delegation) returns `v` is a StopIteration
+INSTANCE whose `args` are CPython 3.4's (`gen_send_ex`: `()` for None, `(v,)` otherwise – a tuple or an exception instance is not
+unpacked or re-used) and whose `.value` is `v` -/
+theorem stopiteration_args_spec (n : Nat) (v : PV) :
+    caughtArgs (chainErr n v) = some (specArgs v) ∧ caughtValue (chainErr n v) = some (specValue v) := by
+  rw [chainErr_eq]
+  simp only [caughtArgs, caughtValue, caught_resumeFinish, Option.map]
+  by_cases h : v = .none
+  · subst h; exact ⟨rfl, rfl⟩
+  · refine ⟨rfl, ?_⟩
+    have hs : Cls.stopIteration.isSub .stopIteration = true := by decide
+    simp [excGetattr, specArgs, h, specValue, PVs.head?, hs]
+
+/-- a bare `return` / falling off the end (`res` is None, or Go nil) gives the class itself: no instance, no args -/
+theorem return_none_is_bare_class : resumeFinish (some .none) = .typ .stopIteration ∧ resumeFinish none = .typ .stopIteration :=
+  ⟨resumeFinish_none, resumeFinish_nil⟩
+
+/-- `next(g, default)` gives the default when the generator returns, whatever it returns -/
+theorem next_default_on_return (n : Nat) (v d : PV) : nextDefault (chainErr n v) d = .ok d := by
+  simp [nextDefault, chainErr_eq, isStop_resumeFinish]
+
+/-- the abstract generator object of Part 2 (`GenObj.resume`, `.ret v` branch: `stopExc v` / `stopType`) is this model seen through
+the embedding `Val ↪ PV`, and `NextErr.stopValue` is `stopIterationValue` -/
+theorem resume_finish_refines (v : Val) :
+    absErr v (resumeFinish (some (ofVal v))) = some (if v != .none then .stopExc v else .stopType) ∧
+    stopIterationValue (resumeFinish (some (ofVal v))) = ofVal (NextErr.stopValue (if v != .none then .stopExc v else .stopType)) := by
+  refine ⟨?_, ?_⟩
+  · cases v with
+    | none => simp [ofVal, resumeFinish_none, absErr]
+    | int i => rw [resumeFinish_some_ne _ (by simp [ofVal])]; simp [absErr, exceptionNew]
+    | str s => rw [resumeFinish_some_ne _ (by simp [ofVal])]; simp [absErr, exceptionNew]
+    | pair a b => rw [resumeFinish_some_ne _ (by simp [ofVal])]; simp [absErr, exceptionNew]
+  · rw [stopValue_resumeFinish]
+    cases v <;> simp [NextErr.stopValue]
+
+/-- WHY the constructor matters (non-vacuity of `exc_sites_pinned`): were the return value given to `exceptionNew` as the argument
+TUPLE (what throw() does with a tuple value), `return (3, 2)` would deliver 3, `return ()` None; were an exception instance re-used
+as the raised exception, `return StopIteration(5)` would deliver 5 -/
+theorem return_value_ctor_matters_witness :
+    stopIterationValue (buildExc .newArgs .stopIteration (.tuple (.cons (.int 3) (.cons (.int 2) .nil)))) = .int 3 ∧
+    stopIterationValue (buildExc .newArgs .stopIteration (.tuple .nil)) = .none ∧
+    stopIterationValue (buildExc .passExc .stopIteration (.exc 1 .stopIteration (.cons (.int 5) .nil))) = .int 5 := by decide
+
+/-- goal 2: the (type, value) parsing of `generator.throw` is Python's normalisation (gen_throw + PyErr_NormalizeException) for
+EVERY pair of objects: an instance is raised itself and refuses a separate value; for a class, a value that is an instance of a subclass
+is raised as it is (identity kept), None gives `type()`, a tuple `type(*value)`, anything else – an exception instance of an unrelated
+class included – `type(value)`; any other first argument is a TypeError.  Excluded: the third argument (traceback) – gpython ignores
+it, CPython rejects a non-traceback with TypeError (recorded, not a C05 claim). -/
+theorem throw_normalise_spec (typ val : PV) : throwBuild typ val = specThrow typ val := by
+  cases typ <;> try rfl
+  case exc id c a =>
+    by_cases h : val = .none
+    · subst h; simp [throwBuild, specThrow, ctor_throw_inst, buildExc, GoErr.asThrow]
+    · have hb : (val != PV.none) = true := by simpa using h
+      cases val <;> simp_all [throwBuild, specThrow]
+  case cls t =>
+    cases val with
+    | exc id c a =>
+      by_cases hs : c.isSub t = true <;>
+        simp [throwBuild, specThrow, ctor_throw_single, ctor_throw_val_inst, buildExc, GoErr.asThrow, exceptionNew, hs]
+    | _ => simp [throwBuild, specThrow, ctor_throw_none, ctor_throw_tuple, ctor_throw_single, buildExc, GoErr.asThrow, exceptionNew]
+
+example : delivered 3 (.tuple (.cons (.int 3) (.cons (.int 2) .nil))) = .ok (.tuple (.cons (.int 3) (.cons (.int 2) .nil))) := return_value_roundtrip 3 _
+example : caughtArgs (chainErr 2 (.exc 1 .stopIteration (.cons (.int 5) .nil))) = some (.cons (.exc 1 .stopIteration (.cons (.int 5) .nil)) .nil) := by decide
+example : throwBuild (.cls .lookupError) (.exc 7 .keyError .nil) = .raiseIn ⟨7, .keyError, .nil⟩ := by decide
+example : throwBuild (.cls .keyError) (.exc 7 .valueError .nil) = .raiseIn ⟨0, .keyError, .cons (.exc 7 .valueError .nil) .nil⟩ := by decide
+
+end ReturnValue
 
 /-- `Runs` is inhabited at a non-trivial point and the fuel hypothesis is satisfiable -/
 example : Runs userNext [.item (.int 1), .stopInstance, .item (.int 2)] [.item (.int 1), .stopInstance, .item (.int 2)] := user_runs _
